@@ -896,13 +896,33 @@ func checkC20(w *World, r *Report) {
 								r.OK("R20.5", what, in.Pos(), "nil (no predicate)")
 								continue
 							}
-							pf, ok := a.(*ssa.Function)
-							if !ok {
-								r.Fail("R20.5", what, in.Pos(), "predicate is not a named function: "+a.String()+" — cannot show it is a kind test")
-								continue
+							// a predicate that is a parameter of the function: every value it is given
+							vals := []argInstance{{f, call, a}}
+							if prm, isParam := a.(*ssa.Parameter); isParam {
+								inst, okI := paramInstances(allFuncs(sp), prm, 0)
+								if !okI {
+									r.Fail("R20.5", what, in.Pos(), "predicate is the parameter "+prm.Name()+" and the values it is given are not all known — cannot show it is a kind test")
+									continue
+								}
+								vals = inst
 							}
-							bad := c20KindTest(pf, 0)
-							r.Check(bad == "", "R20.5", what, in.Pos(), pf.Name()+": pure kind test", pf.Name()+" "+bad+": which children a choice/case/container keeps depends on node content, so a node whose content was pruned by the filter is attached differently than in the unfiltered compile")
+							for vi, av := range vals {
+								what := what
+								if len(vals) > 1 || av.caller != f {
+									what = fmt.Sprintf("%s (as called from %s #%d)", what, funcKey(av.caller), vi+1)
+								}
+								if c, ok := av.val.(*ssa.Const); ok && c.IsNil() {
+									r.OK("R20.5", what, av.site.Pos(), "nil (no predicate)")
+									continue
+								}
+								pf, ok := av.val.(*ssa.Function)
+								if !ok {
+									r.Fail("R20.5", what, av.site.Pos(), "predicate is not a named function: "+av.val.String()+" — cannot show it is a kind test")
+									continue
+								}
+								bad := c20KindTest(pf, 0)
+								r.Check(bad == "", "R20.5", what, av.site.Pos(), pf.Name()+": pure kind test", pf.Name()+" "+bad+": which children a choice/case/container keeps depends on node content, so a node whose content was pruned by the filter is attached differently than in the unfiltered compile")
+							}
 						}
 					}
 				}
